@@ -109,9 +109,9 @@ CLAIMED.update({
 })
 CLAIMED.update({
  "C02": ("exploration",
-         "differential property testing across optimization plans: generated loop programs (G2) and general programs (G1) compiled without the optimizer, with all 32 configurations, with every single pass and with random pass sequences (cfg-guarded hook); emitted WebAssembly executed and compared",
+         "differential property testing across optimization plans: generated loop programs (G2) and general programs (G1) compiled without the optimizer, with all 32 configurations, with every single pass and with driver-shaped pass schedules (cfg-guarded hook); emitted WebAssembly executed and compared",
          "Every distinct module emitted for a plan is run in node and must print the same lines and end the same way (ok / panic message / trap class / stack exhaustion) as the module built without the optimizer. The loop generator covers guards of every comparison kind in both operand orders, strides of either sign and size, bounds near INT_MIN / INT_MAX, derived induction expressions, trapping and loop-invariant computations, effects in bodies and in dead loop variables, nested loops and per-iteration tuples, with literal and opaque arguments; trip counts are bounded by simulation. Signatures name the smallest configuration that differs.",
-         "32-bit wrapping and traps are the target's semantics (the reference is the unoptimized build, not the source-level interpreter). Plans containing inlining are closed with one constant-propagation pass (inlining's typed-agnostic `x + 0` moves never reach the backend in any configuration). Plans that cannot be built are counted, not judged (C03's subject). Three recorded optimizer findings exclude derived-induction-variable and guard-as-result shapes from generation; their probes run on every invocation.",
+         "32-bit wrapping and traps are the target's semantics (the reference is the unoptimized build, not the source-level interpreter). Plans containing inlining are closed with one constant-propagation pass (inlining's typed-agnostic `x + 0` moves never reach the backend in any configuration). Plans that cannot be built are counted, not judged (C03's subject). Five recorded optimizer findings exclude derived-induction-variable, guard-as-result, same-operand division and compare-after-add shapes (and extreme literals in G1 hosts) from generation; their probes run on every invocation. Pass schedules are driver-shaped (per-round subsets of the driver's own pass order).",
          "DESIGN.md §4 C02"),
 })
 NOT_YET = {}
